@@ -169,6 +169,9 @@ enum Act {
     Hold,
     LenLie,
     Unsolicited,
+    /// The peer is gone without a word: no answer, no end of stream; the
+    /// client's next write fails.
+    Vanish,
 }
 
 fn decide(kn: &Knobs, via: Via, health: Health) -> Act {
@@ -194,6 +197,7 @@ fn decide(kn: &Knobs, via: Via, health: Health) -> Act {
         (20, Via::Dgram) => Act::Slow,
         (21, _) => Act::Hold,
         (22, Via::Stream) => Act::LenLie,
+        (23, Via::Stream) => Act::Vanish,
         (22, Via::Dgram) => Act::Unsolicited,
         _ => Act::Unsolicited,
     }
@@ -214,6 +218,7 @@ fn slow_delay_ms(timeout_ms: u64) -> u64 {
 /// The replies (bytes, delay) a peer produces for one request.
 struct Replies {
     out: Vec<(Vec<u8>, u64)>,
+    vanish: bool,
     close: Option<Cut>,
     cut_inside: bool,
     len_lie: bool,
@@ -224,6 +229,7 @@ fn react(led: &Led, kn: &Knobs, server: usize, health: Health, via: Via, req: &[
     let k = k_of_qname(&p.qname);
     let mut r = Replies {
         out: Vec::new(),
+        vanish: false,
         close: None,
         cut_inside: false,
         len_lie: false,
@@ -336,6 +342,10 @@ fn react(led: &Led, kn: &Knobs, server: usize, health: Health, via: Via, req: &[
             // rcode says (a truncated NXDOMAIN or SERVFAIL is still truncated).
             let rcode = if kn.kind == Kind::DgramStream && sim::chance("peer.tc_rcode", 1, 3) { *sim::pick("peer.tc_rcode_which", &[Rcode::NXDOMAIN, Rcode::SERVFAIL, Rcode::REFUSED]) } else { rcode };
             r.out.push((dns::mk_reply(req, t, true, rcode).expect("reply"), base_delay));
+        }
+        Act::Vanish => {
+            fault(led, scope.clone(), "fault.s.peer_vanished");
+            r.vanish = true;
         }
         Act::CloseBefore => {
             fault(led, scope.clone(), "fault.s.close");
@@ -513,6 +523,12 @@ async fn stream_conn_peer(led: Led, kn: Knobs, server: usize, health: Health, ac
             }
             in_flight.push((p.id, k, sim::now_ns()));
             let r = react(&led, &kn, server, health, Via::Stream, &body, &p, kn.st_response_timeout_ms);
+            if r.vanish {
+                ev!("peer{} conn{} vanishes", server, index);
+                ctl.vanish_b();
+                // (Keep the stream object: dropping it would look like a close.)
+                std::future::pending::<()>().await;
+            }
             if r.len_lie || r.cut_inside || r.out.iter().any(|(b, _)| b.len() < 12) {
                 desynced = true;
             }
